@@ -147,12 +147,31 @@ def _mk_cc(v):
     for prop, val in items:
         key = prop.replace("_", "-")
         d[key] = None if val is True else str(val)
-    obj = CC[kind](d)
-    for prop, val in items:
-        got = getattr(obj, prop)
-        if got != val:
-            raise core.Broken(f"harness: {kind}CacheControl built from {d!r} reads {prop}={got!r}, wanted {val!r}")
-    return obj
+    return CC[kind](d)
+
+
+def _cc_props(cls):
+    out = {}
+    for n in sorted(dir(cls)):
+        p = getattr(cls, n, None)
+        if isinstance(p, property):
+            cl = dict(zip(p.fget.__code__.co_freevars, (c.cell_contents for c in p.fget.__closure__)))
+            out[n] = cl
+    return out
+
+
+def _cc_expect(v):
+    """What every typed property must read after the round trip, stated from the directive set alone."""
+    kind, items = v
+    given = dict(items)
+    d = tuple(sorted(((p.replace("_", "-"), None if val is True else str(val)) for p, val in items), key=repr))
+    props = []
+    for n, cl in _cc_props(CC[kind]).items():
+        if n in given:
+            props.append((n, given[n]))
+        else:
+            props.append((n, False if cl["type"] is bool else None))
+    return (d, tuple(props))
 
 
 def _mk_auth(v):
@@ -649,6 +668,8 @@ def _etags_expect(v):
 
 # expectations stated independently of the object under test (default: view(build(v)))
 EXPECT = {
+    "cache-control[Request]": _cc_expect,
+    "cache-control[Response]": _cc_expect,
     "etags": _etags_expect,
     "set": lambda v: _hs_norm(list(v)),
     "set-dump_header": lambda v: _hs_norm(list(v)),
